@@ -1866,7 +1866,7 @@ def SIS_homogeneous_meanfield_from_graph(G, tau, gamma,
         raise EoN.EoNError("cannot define both initial_infecteds and rho")
     kave = G.size()*2.0/G.order()
     if initial_infecteds is not None:
-        I0 = len(initial_infecteds)
+        I0 = len(set(initial_infecteds)) #a node named more than once is one node
     elif rho is not None:
         I0 = rho*G.order()
     else:
@@ -1920,14 +1920,14 @@ def SIR_homogeneous_meanfield_from_graph(G, tau, gamma, initial_infecteds=None,
         raise EoN.EoNError("cannot define both initial_recovereds and rho")
     kave = G.size()*2.0/G.order()
     if initial_infecteds is not None:
-        I0 = len(initial_infecteds)
+        I0 = len(set(initial_infecteds)) #a node named more than once is one node
         if initial_recovereds is None:
             initial_recovereds = []
     elif rho is not None:
         I0 = rho*G.order()
     else:
         I0 = 1.
-    R0 = 0 if initial_recovereds is None else len(initial_recovereds)
+    R0 = 0 if initial_recovereds is None else len(set(initial_recovereds))
         
     S0 = G.order()-I0 - R0
     return SIR_homogeneous_meanfield(S0, I0, R0, kave, tau, gamma, tmin=tmin, tmax=tmax, 
@@ -2203,7 +2203,7 @@ def SIS_homogeneous_pairwise_from_graph(G, tau, gamma, initial_infecteds=None,
 
     if initial_infecteds is not None:
         status = _initialize_node_status_(G, initial_infecteds)
-        I0= len(initial_infecteds)
+        I0= len(set(initial_infecteds)) #a node named more than once is one node
         S0 = N-I0
         SS0=0
         II0=0
@@ -2304,8 +2304,8 @@ def SIR_homogeneous_pairwise_from_graph(G, tau, gamma, initial_infecteds=None,
         if initial_recovereds is None:
             initial_recovereds = []
         status = _initialize_node_status_(G, initial_infecteds, initial_recovereds)
-        I0 = len(initial_infecteds)
-        R0 = len(initial_recovereds)
+        I0 = len(set(initial_infecteds)) #a node named more than once is one node
+        R0 = len(set(initial_recovereds))
         S0 = N-I0-R0
         SS0 = 0
         SI0 = 0
